@@ -904,8 +904,9 @@ EVAL_SPECS = ["rbf", "rbf:rbf", "linear", "antisym", "rbf+linear", "kernel:const
 
 def _model_cfgs(tier, rng):
     from vlib import gen
-    fams = list(gen.FAMILIES)
-    n = 96 if tier == "quick" else 720
+    # + SDMXFull settings whose ratio dict is written in ascending and in descending key order (YAML sorts mapping keys)
+    fams = list(gen.FAMILIES) + ["sdmxfull-asc", "sdmxfull-desc"]
+    n = 105 if tier == "quick" else 735
     cfgs = []
     for i in range(n):
         c = {"family": fams[i % len(fams)], "cls": "xc2" if (i // len(fams)) % 3 == 2 else "xc1"}
@@ -958,7 +959,14 @@ def _build_model(cfg, rng):
     from ciderpress.dft import xc_evaluator as xe
     from ciderpress.dft import xc_evaluator2 as xe2
     from vlib import gen
-    st = gen.family_settings(cfg["family"], rng)
+    if cfg["family"].startswith("sdmxfull"):
+        from ciderpress.dft import settings as cst
+        blocks = [(1.0, ([0, 1], [2, 1, 0, 0])), (2.0, ([1, 0], [1, 0, 0, 0])), (1.5, ([0], [1, 1, 0, 0]))]
+        if cfg["family"].endswith("desc"):
+            blocks = [blocks[1], blocks[2], blocks[0]]
+        st = gen.feature_settings("npa", None, cst.SDMXFullSettings(dict(blocks)))
+    else:
+        st = gen.family_settings(cfg["family"], rng)
     kernels = []
     for k in cfg["kernels"]:
         nmaps = max(2, k["nmaps"])
